@@ -746,6 +746,33 @@ def short_array_cases(repo_root):
     return cases
 
 
+def enum_near_cases(repo_root):
+    """Every enumeration-looking value (upper-case word) of the base documents, once per (property name, value), replaced
+    by proper substrings and near spellings of itself; and the optional `context` property added to a comparison
+    operand with such near-members of its one-member enumeration."""
+    import re as _re
+    cases, seen = [], set()
+    for name, doc in base_documents(repo_root):
+        for (path, parent, key, node) in locations(doc):
+            if isinstance(node, str) and isinstance(key, str) and _re.match(r"^[A-Z][A-Z_]{2,}$", node) and (key, node) not in seen:
+                seen.add((key, node))
+                for v in (node[:-1], node[1:], node[:3], node + "S", node.lower(), node.capitalize()):
+                    if v == node:
+                        continue
+                    d = copy.deepcopy(doc)
+                    set_at(d, path, v)
+                    cases.append({"doc": d, "kind": "enum_near", "base": name, "path": show(path) + " := " + json.dumps(v), "inert": False})
+            if isinstance(node, dict) and isinstance(node.get("ref"), str) and key in ("left", "right") and "context" not in node \
+                    and ("operand_context", name) not in seen and "compare" in [p for p in path if isinstance(p, str)] \
+                    and sum(1 for x in seen if x[0] == "operand_context") < 6:
+                seen.add(("operand_context", name))
+                for v in ("RUN", "TIME", "R", "", "runtime", "RUNTIMES", "TEMPLATE"):
+                    d = copy.deepcopy(doc)
+                    get_at(d, path)["context"] = v
+                    cases.append({"doc": d, "kind": "enum_near:context", "base": name, "path": show(path) + ".context := " + json.dumps(v), "inert": False})
+    return cases
+
+
 def exclusive_pair_cases(repo_root):
     """Every object of every base document that belongs to a mutually exclusive group gets each partner in turn
     (operation include + exclude; an application with two of aggregate / filter / sort / select, the added step
